@@ -442,7 +442,10 @@ inline void evalPasses(const Spec &s, vf::Ctx &ctx, Mode mode, Sink &sink, int m
 
 // ------------------------------------------------------------------ shared instance space
 // aux: 0 top-level, 1 moves graph, 2 pass graph
-inline void enumerateDetailed(bool thorough, Mode mode, const std::function<void(const Spec &)> &f) {
+inline void enumerateDetailed(bool thorough, Mode mode, const std::function<void(const Spec &)> &f0) {
+  // every 61st top-level instance is also explored translated beyond 2^24 (odd offsets: float loses the unit there) and
+  // scaled by (9001, 11003)
+  auto f = withMagnitudes(f0, 61, {{0, 40000001, 20000003}, {1, 9001, 11003}}, [](const Spec &s) { return s.aux == 0; });
   auto withNets = [&](const Spec &s, int level, const std::function<void(const Spec &)> &g) {
     if (mode != M_C05) {
       // one fixed net set so that the optimiser has something to do
